@@ -127,3 +127,11 @@ Theorem C13_star_keeps_aliased_terms :
         name_in (Some a) (map alias_of (normalize_sel (SStar :: map ST ts))) = true).
 Proof. exact (conj star_rows_agree (conj star_keeps_terms star_alias_selected)). Qed.
 Print Assumptions C13_star_keeps_aliased_terms.
+
+(* ... and the switch passes through the contexts of clause items and of function arguments unchanged, so a sub-query of any
+   class below an ORDER BY / GROUP BY item (directly or as a function argument) of a statement with the switch off has it off *)
+Theorem C13_nested_switch_below_items :
+  (forall k c, k_gba (with_c k c) = k_gba k) /\ (forall k, k_gba (fk k) = k_gba k)
+  /\ (forall k c c' cl, k_gba k = false -> k_gba (defaults cl (with_c (fk (with_c k c)) c')) = false).
+Proof. exact (conj gba_with_c (conj gba_fk gba_below_items)). Qed.
+Print Assumptions C13_nested_switch_below_items.
